@@ -300,3 +300,30 @@ def load_corpus(prop):
             if f.endswith(".json"):
                 out.append((f, json.load(open(os.path.join(d, f)))))
     return out
+
+
+def compare(rep, prop, items, impl=None, model=None, what="model vs implementation"):
+    """items: list of dict(kind, line, req, key, [sample], [nontrivial]).  Runs the
+    model line and the implementation request, records a disagreement when
+    the canonical strings differ.  Returns list of (item, model_str, impl_result)."""
+    model = model or Model(prop)
+    impl = impl or Impl(prop)
+    mres = model.run([it["line"] for it in items])
+    ires = impl.run([it["req"] for it in items])
+    out = []
+    for it, m, r in zip(items, mres, ires):
+        v = r.get("v") if isinstance(r, dict) else None
+        if isinstance(r, dict) and r.get("missing"):
+            rep.extra["helpers_missing"] = rep.extra.get("helpers_missing", 0) + 1
+            out.append((it, m, r))
+            continue
+        if v is None:
+            v = "worker:" + json.dumps(r)[:200]
+        rep.case(it["kind"], key=it.get("key", it["line"]), nontrivial=it.get("nontrivial", True),
+                 outcome=(v.split(" ")[0].split(":")[0] if it.get("outcome", True) else None),
+                 sample=it.get("sample", {"model_request": it["line"][:300], "model": m[:200], "impl": v[:200]}))
+        if m != v:
+            rep.disagree("%s [%s]" % (what, it["kind"]), {"request": it["line"][:2000], "impl_request": it["req"]},
+                         m[:500], v[:500])
+        out.append((it, m, r))
+    return out
